@@ -6,7 +6,7 @@ PREDICATE = 'C19'
 LEAN_TARGETS = ['LLTD.Props.C19']
 VARIANT = 'plain'
 RULE = ('histories of all request types on one or two interfaces with the ledger line after every frame compared to the retained state the '
-        'specification predicts; floods of Probes with pairwise distinct sources and no Query (quick 2 x 3000 frames, thorough 10^5), '
+        'specification predicts; floods of Probes with pairwise distinct sources and no Query (quick 2 x 3000 frames, thorough 10^5), flood/Query rounds where a Query leaves a remainder, '
         'Resets at random points; non-trivial = the number of live allocations changed at least 3 times; distinct = distinct projected transcript')
 ASSUMPTIONS = ['port contract as for C02', 'the ledger of the verification port sees every lltd_port_malloc/free and the icon / friendly-name blocks the port hands out']
 
@@ -28,6 +28,20 @@ def cases(rng, tier, X):
                 if len(f) // 2 <= 576:
                     ops.append('rx %d %s' % (i, f))
         out.append(('h%d' % k, ops))
+    # flood / Query rounds: a Query that cannot carry everything leaves a remainder; the cap must still hold afterwards
+    for c in range(2 if tier == 'quick' else 20):
+        ops = [F.iface_line(0, mac=F.OWN, mtu=rng.choice([576, 1500])), F.glob_line()]
+        ops.append('rx 0 ' + F.discover(F.STATIONS[0], 1, 1))
+        serial = 0
+        for rnd in range(3):
+            for i in range(rng.choice([60, 400, 1100])):
+                serial += 1
+                src = '07%02x%02x%02x%02x%02x' % (c, (serial >> 16) & 255, (serial >> 8) & 255, serial & 255, rnd)
+                ops.append('rx 0 ' + F.probe(src, F.OWN, src, F.OWN, train=bool(i & 1)))
+            for _ in range(rng.choice([1, 1, 3])):
+                ops.append('rx 0 ' + F.query(F.STATIONS[0], F.OWN, 5 + rnd))
+        ops.append('rx 0 ' + F.reset(F.STATIONS[0]))
+        out.append(('rounds%d' % c, ops))
     floods = [(2, 3000)] if tier == 'quick' else [(2, 3000), (1, 100000)]
     for fi, (cnt, length) in enumerate(floods):
         for c in range(cnt):
